@@ -932,6 +932,19 @@ impl Prop for C08 {
                 }
             }
             sh.note("fault_matrix_programs", json!(np * nc));
+            if sh.shard == 0 {
+                for kind in 0..faults::JUMP_KINDS.len() {
+                    for source in 0..faults::JUMP_SOURCES.len() {
+                        for target in 0..faults::JUMP_TARGETS.len() {
+                            let jc = faults::jump_case(kind, source, target);
+                            let r = judge(sh, &jc.text, b"", "jump-scope-matrix", &["(matrix)"]);
+                            if !sh.report(r) {
+                                return;
+                            }
+                        }
+                    }
+                }
+            }
         }
         let cases = sh.share(sh.tier.pick(24_000, 900_000));
         let size = sh.tier.pick(10, 18);
